@@ -21,7 +21,10 @@ pub mod c21;
 pub mod c23;
 pub mod c24;
 pub mod c25;
+pub mod c26;
+pub mod c27;
 pub mod c28;
+pub mod c33;
 pub mod c29;
 pub mod c32;
 pub mod exh;
@@ -55,6 +58,8 @@ pub fn all() -> Vec<Prop> {
         c23::prop(),
         c24::prop(),
         c25::prop(),
+        c26::prop(),
+        c27::prop(),
         c28::prop(),
         c29::prop(),
         c17::prop(),
@@ -65,6 +70,7 @@ pub fn all() -> Vec<Prop> {
         c30::prop(),
         c31::prop(),
         c32::prop(),
+        c33::prop(),
     ]
 }
 
